@@ -276,6 +276,9 @@ def apply_op(inst: "Inst", op: tuple, snapshots: Optional[List[str]] = None) -> 
     if kind == "loadsnap":  # ("loadsnap", index, replace)
         inst.load_text(snapshots[op[1]], replace=op[2])
         return None
+    if kind == "saveload":  # write the current configuration and load that very file back (op[1] = replace)
+        inst.load_text(inst.config_text(), replace=op[1])
+        return None
     if kind == "read":
         return read_sym(k.syms[op[1]])
     if kind == "readc":
